@@ -392,7 +392,10 @@ impl ServiceDaemon {
     /// `service_type` must end with a valid mDNS domain: '._tcp.local.' or '._udp.local.'
     ///
     /// The functionality is identical to 'browse', but the service events are based solely on the contents
-    /// of the daemon's cache. No actual mDNS query is sent to the network.
+    /// of the daemon's cache. No actual mDNS query is sent to the network, neither at once
+    /// nor later to refresh cached records of this type. As any new browse of a type replaces
+    /// the earlier one, calling this for a type that [`browse`](Self::browse) is querying for
+    /// ends those queries, and a later `browse` of the type starts them again.
     ///
     /// See [accept_unsolicited](Self::accept_unsolicited) if you want to do cache-only browsing.
     ///
@@ -1046,6 +1049,11 @@ struct Zeroconf {
     /// Active "Browse" commands.
     service_queriers: HashMap<String, Sender<ServiceEvent>>, // <ty_domain, channel::sender>
 
+    /// The service types in `service_queriers` that are browsed cache-only
+    /// (`browse_cache`): they receive events but no query is sent for them.
+    /// The last `browse` / `browse_cache` call for a type decides.
+    cache_only_queriers: HashSet<String>,
+
     /// Active "ResolveHostname" commands.
     ///
     /// The timestamps are set at the future timestamp when the command should timeout.
@@ -1265,6 +1273,7 @@ impl Zeroconf {
             dns_registry_map,
             hostname_resolvers: HashMap::new(),
             service_queriers: HashMap::new(),
+            cache_only_queriers: HashSet::new(),
             retransmissions: Vec::new(),
             counters: HashMap::new(),
             poller,
@@ -2084,7 +2093,9 @@ impl Zeroconf {
         // address records from being attributed to the new interface.
         if let Some(my_intf) = self.my_intfs.get(&if_index) {
             for ty in self.service_queriers.keys() {
-                self.send_query_on_intf(ty, RRType::PTR, my_intf);
+                if !self.cache_only_queriers.contains(ty) {
+                    self.send_query_on_intf(ty, RRType::PTR, my_intf);
+                }
             }
         }
 
@@ -3686,6 +3697,14 @@ impl Zeroconf {
             // If there is already a `listener`, it will be updated, i.e. overwritten.
             self.service_queriers.insert(ty.clone(), listener.clone());
 
+            // The new browse replaces the earlier one also in this respect:
+            // `browse_cache` makes the type cache-only, `browse` active.
+            if cache_only {
+                self.cache_only_queriers.insert(ty.clone());
+            } else {
+                self.cache_only_queriers.remove(&ty);
+            }
+
             // if we already have the records in our cache, just send them
             self.query_cache_for_service(&ty, &listener, now);
         }
@@ -3887,6 +3906,8 @@ impl Zeroconf {
         match self.service_queriers.remove_entry(&ty_domain) {
             None => debug!("StopBrowse: cannot find querier for {}", &ty_domain),
             Some((ty, sender)) => {
+                self.cache_only_queriers.remove(&ty);
+
                 // Remove pending browse commands in the reruns.
                 trace!("StopBrowse: removed queryer for {}", &ty);
                 let mut i = 0;
@@ -4028,6 +4049,10 @@ impl Zeroconf {
         let mut query_addr_count = 0;
 
         for (ty_domain, _sender) in self.service_queriers.iter() {
+            if self.cache_only_queriers.contains(ty_domain) {
+                continue; // cache-only browse: no query is sent.
+            }
+
             let refreshed_timers = self.cache.refresh_due_ptr(ty_domain);
             if !refreshed_timers.is_empty() {
                 trace!("sending refresh query for PTR: {}", ty_domain);
